@@ -12,7 +12,7 @@ literal index into a list whose reported type carries a length must not raise In
 from ..common import *
 from ..typedprog import *
 
-LEVEL = "model_checked"
+LEVEL = "model_checking"
 
 
 def model_checks(ctx):
